@@ -2,13 +2,16 @@ CONFIG = {
     "level": "proof",
     "passes": [
         {"name": "convert", "pkg": "c17", "bin": "c17", "driver": "drv_c17"},
+        {"name": "loader", "pkg": "c17", "bin": "c17", "driver": "drv_c17", "args": ["-pass", "loader"], "reset_prefix": "reset"},
     ],
     "trusted_base": [
         "strings.Split/TrimSpace, hex.Decode: modelled on bytes (TrimSpace for ASCII input only; the driver reports that both table files are pure ASCII); agreement checked by the exhaustive sweeps (they determine both internal maps) and by synthetic malformed table files through the real loader",
         "the two UAO table files are read at run time by the compiled Lean driver (too large for a kernel literal): WF of the real tables is an evaluation of the decidable predicate, not a kernel proof",
     ],
     "modelled_config": "types.config() as the regenerated list Gen.Big5.configReads + configutil.SetStringConfig (ini value of prefix.lower(KEY) if set, else the default expression); viper's ini parsing itself is exercised, not modelled (cfg ops run the real viper + types.InitConfig in a child process)",
-    "modelled": ["types.config (table-path reads)", "types.Big5ToUtf8", "types.Utf8ToBig5", "types.initToBig5", "types.initToUtf8", "types.initB2U", "types.initU2B"],
+    "modelled": ["types.config (table-path reads)", "types.Big5ToUtf8", "types.Utf8ToBig5", "types.initToBig5", "types.initToUtf8", "types.initB2U", "types.initU2B",
+                 "types.initBig5 (both \"already loaded\" guards, error returns: state machine over the two maps)", "types.InitConfig/postConfig (order: config, time location, initBig5)"],
     "assumptions": ["table files are pure ASCII (checked on every run: `wf` op)",
-                    "file I/O and the already-loaded guard of initB2U/initU2B are not modelled (one load per process)"],
+                    "file I/O is a function path -> content-or-error; rows inserted before a panic inside the row loop are not kept by the model (no generated history parses a panicking file)",
+                    "loader histories are generated with at most one readable file per direction (the oracle's 'file it was loaded from' is then unambiguous)"],
 }
